@@ -117,6 +117,14 @@ void h_chmap_ctor(void) { SETUP; chmap_ctor(s); BT_CANARY(); }
          timeout=900, replay=dict(src='replay/c20_replay.cpp', repo_sources=['bluetoe/link_layer/channel_map.cpp'])),
 ]
 
+# event counter -> table index: channel_index_ advances with event_counter_ modulo 37 (contracts stated in C23.py); a change that
+# desynchronises them breaks "for every event counter the data channel equals CSA#1" just as a wrong table does
+import os, importlib.util as _ilu
+def _load(name):
+    sp = _ilu.spec_from_file_location(name, os.path.join(os.path.dirname(__file__), name + '.py'))
+    m = _ilu.module_from_spec(sp); sp.loader.exec_module(m); return m
+UNITS += [dict(u, name='channel_index') for u in _load('C23').UNITS if u['name'] == 'plan_next']
+
 META = dict(
     level='proof',
     explanation="channel_map.cpp's in_map, build_used_channel_map, reset(map,hop), reset(map), data_channel and the constructor are extracted and "
@@ -126,6 +134,6 @@ META = dict(
                 "stated as a relation over popcounts (the remapping index is the rank of the chosen channel among the used ones).",
     assumptions=["the oracle is CSA#1 as written in this file from Core spec Vol 6 Part B 4.5.8.2",
                  "that adv_received / handle_pending_ll_control do not use the map after reset() returned false is covered in C21/C22 call-site contracts, not here",
-                 "event counter -> table index (channel_index advances with the counter) is C23"],
+                 "event counter -> table index: unit channel_index re-runs the C23 contracts of plan_next_connection_event / ..._after_timeout / reset_connection_state / peripheral_latency_move_connection_event (channel_index_new == (channel_index_old + k) mod 37 for the k the event counter advanced by)"],
     trusted_base=[],
 )
